@@ -190,12 +190,14 @@ func c14Ez(w *fw.Worker, i int, r *fw.Rand) {
 		w.Violation(i, "ez-flag-registration-error", err.Error(), nil)
 		return
 	}
-	params := ez.Params[c14EzCfg]{FlagSource: fs}
+	// (the config has no set-typed field, so switching the automatic set-to-slice conversion off changes nothing)
+	noSetSlice := r.Chance(35)
+	params := ez.Params[c14EzCfg]{FlagSource: fs, DisableAutoSetToSlice: noSetSlice}
 	if kebab {
 		params.FileFieldNameEncoder = caseconversion.EncodeKebabCase
 		params.DialsTagNameDecoder = caseconversion.DecodeGoTags
 	}
-	desc := map[string]any{"source": "ez", "file_field_name_encoder_kebab": kebab, "yaml": useYAML, "document": string(text), "pattern": pat}
+	desc := map[string]any{"source": "ez", "file_field_name_encoder_kebab": kebab, "yaml": useYAML, "document": string(text), "pattern": pat, "disable_auto_set_to_slice": noSetSlice}
 	ctx, cancel := context.WithCancel(context.Background())
 	defer cancel()
 	d, derr := ez.FileExtensionDecoderConfigEnvFlag(ctx, cfg, params)
